@@ -154,8 +154,8 @@ class BuildError(Exception):
 def build_harness(name, flavor="asan", extra=None):
     lib, flags, cxx = build_lib(flavor)
     src = os.path.join(VERIF, "harness", name + ".cpp")
-    common = os.path.join(VERIF, "harness", "common.hpp")
-    key = sha(fread(src), fread(common), lib, " ".join(flags), " ".join(extra or []))
+    hdrs = b"".join(fread(h) for h in sorted(glob.glob(os.path.join(VERIF, "harness", "*.hpp"))))
+    key = sha(fread(src), hdrs, lib, " ".join(flags), " ".join(extra or []))
     bindir = os.path.join(CACHE, "bin")
     os.makedirs(bindir, exist_ok=True)
     exe = os.path.join(bindir, f"{name}-{flavor}-{key}")
